@@ -124,3 +124,85 @@ def constrained_classes(classes):
                 if isinstance(n, ast.If) and any(isinstance(x, ast.Raise) for x in ast.walk(n)) and isinstance(n.test, ast.Compare):
                     out[name] = ast.unparse(n.test)
     return out
+
+
+def const_strings(fx, files=('crates/erg_compiler/context/initialize/mod.rs',)):
+    out = {}
+    for file in files:
+        for f in fx.fns(file):
+            if f.get('dk') == 'Const':
+                b = T.peel(f['body'])
+                if b.get('k') == 'Lit' and 'str' in (b.get('v') or {}):
+                    out[T.last_seg(f['path'])] = b['v']['str']
+    return out
+
+
+def declared_methods(fx):
+    """[(class, method python/erg name, return class, line)] for methods registered on the numeric class contexts in init_builtin_classes
+    whose signature is built with fnN_met(Self, .., Ret)"""
+    f = fx.fn(CLASSES, 'Context::init_builtin_classes')
+    consts = const_strings(fx)
+    cls_of = {}
+    rows = []
+    for st in T.stmts_of(f['body']):
+        st = T.unsemi(st)
+        if st.get('k') == 'Let' and 'init' in st and st['pat'].get('k') == 'Bind':
+            init = T.peel(st['init'])
+            if init.get('k') == 'Call' and T.last_seg(init.get('fn') or '') in ('builtin_mono_class', 'builtin_poly_class') and init['a']:
+                nm = T.show(T.peel(init['a'][0]))
+                cls_of[st['pat']['n']] = consts.get(nm, nm)
+        elif st.get('k') == 'MCall' and st['n'] in ('register_py_builtin', 'register_builtin_erg_impl', 'register_builtin_py_impl') and len(st['a']) >= 2:
+            recv = T.show(st['r'])
+            cls = cls_of.get(recv)
+            if cls not in NUMERIC:
+                continue
+            sig = T.peel(st['a'][1])
+            if sig.get('k') == 'Call' and T.last_seg(sig.get('fn') or '') in ('fn0_met', 'fn1_met', 'fn_met', 'fn1_kw_met') and sig['a']:
+                ret = tyname(sig['a'][-1])
+                name_const = T.show(T.peel(st['a'][0]))
+                name = consts.get(name_const, name_const)
+                pyname = name
+                for a in st['a'][2:]:
+                    a2 = T.peel(a)
+                    if a2.get('k') == 'Call' and (a2.get('fn') or '').endswith('::Some') and a2['a']:
+                        pyname = consts.get(T.show(T.peel(a2['a'][0])), pyname)
+                rows.append((cls, name, pyname, ret, st['l']))
+    return rows
+
+
+# sign intervals: (lo, hi) with None = unbounded; python ast expression evaluation for `self` in a class domain
+def py_interval(e, self_dom):
+    import ast
+    if isinstance(e, ast.Name) and e.id == 'self':
+        return self_dom
+    if isinstance(e, ast.Constant) and isinstance(e.value, int) and not isinstance(e.value, bool):
+        return (e.value, e.value)
+    if isinstance(e, ast.Call) and isinstance(e.func, ast.Name) and len(e.args) >= 1:
+        if e.func.id == 'then__':
+            return py_interval(e.args[0], self_dom)
+        if e.func.id in ('Int', 'Nat', 'int', 'IntMut', 'NatMut', 'Bool'):
+            return py_interval(e.args[0], self_dom)
+        if e.func.id == 'abs':
+            return (0, None)
+        if e.func.id == 'len':
+            return (0, None)
+    if isinstance(e, ast.Call) and isinstance(e.func, ast.Attribute) and isinstance(e.func.value, ast.Name) and e.func.value.id == 'int' and e.args:
+        # int.__add__(self, other) etc.: not evaluated for unknown `other`
+        return None
+    if isinstance(e, ast.BinOp) and isinstance(e.op, (ast.Add, ast.Sub)):
+        a, b = py_interval(e.left, self_dom), py_interval(e.right, self_dom)
+        if a is None or b is None:
+            return None
+        if isinstance(e.op, ast.Add):
+            lo = None if a[0] is None or b[0] is None else a[0] + b[0]
+            hi = None if a[1] is None or b[1] is None else a[1] + b[1]
+        else:
+            lo = None if a[0] is None or b[1] is None else a[0] - b[1]
+            hi = None if a[1] is None or b[0] is None else a[1] - b[0]
+        return (lo, hi)
+    if isinstance(e, ast.UnaryOp) and isinstance(e.op, ast.USub):
+        a = py_interval(e.operand, self_dom)
+        if a is None:
+            return None
+        return (None if a[1] is None else -a[1], None if a[0] is None else -a[0])
+    return None
